@@ -456,9 +456,13 @@ func runC03(c *Ctx) error {
 		n := 3 + c.Rng.IntN(10)
 		wire := make([][]byte, n+1)
 		times := make([]int64, n+1)
-		base := time.Now().Add(-time.Hour).UnixMilli()
+		// the sender's clock is its own business: an hour behind, or days ahead of the receiver's
+		base := time.Now().Add([]time.Duration{-time.Hour, -time.Hour, 30 * time.Hour, 72 * time.Hour, -48 * time.Hour}[i%5]).UnixMilli()
+		c.Count(fmt.Sprintf("signed-sender-clock:%d", i%5))
 		for k := 1; k <= n; k++ {
-			f, err := builder.NewFrameV1(a.id.IP, b.id.IP, frame.RouterPing, nil, []byte(fmt.Sprintf("ping-%d-%d", i, k)), nil)
+			// all signed message types of one sender share one timestamp order
+			mt := []frame.MessageType{frame.RouterPing, frame.RouterPing, frame.RouterHopPing, frame.RouterHopPingDeprecated}[c.Rng.IntN(4)]
+			f, err := builder.NewFrameV1(a.id.IP, b.id.IP, mt, nil, []byte(fmt.Sprintf("ping-%d-%d", i, k)), nil)
 			if err != nil {
 				return err
 			}
